@@ -515,6 +515,8 @@ def check_history(case, ctx):
         invs = []
         for i, inv in enumerate(case["invs"]):
             si = inv["site"] % len(SITES)
+            if "site_name" in inv:  # pinned replays name their site, robust against additions to SITES
+                si = [f.__name__ for f in SITES].index(inv["site_name"])
             p_ = P(inv, i, cache)
             if p_.none and not pinned:
                 if si == NONE_SITE:
